@@ -18,14 +18,14 @@ FnOK(f) ==
   /\ (f.ret = "borrow-deps" => f.deps.pass = "reflife")
   /\ (f.ret = "borrow-arg" => Len(f.params) >= 1 /\ f.params[1] = "reflife")
   /\ (f.ret = "generic" => Len(f.params) >= 1 /\ f.params[1] = "generic")
-  /\ (f.lwhere => Len(f.params) = 2 /\ f.params[1] = "reflife" /\ f.params[2] = "reflife")
+  /\ (f.lwhere # "none" => Len(f.params) = 2 /\ f.params[1] = "reflife" /\ f.params[2] = "reflife")
   /\ (f.bound = "where" => \E i \in DOMAIN f.params : f.params[i] = "generic")
   /\ (f.qual = "extern" => ~f.async)
 Fns == { f \in { Fn(dk, pa, ps, bo, lw, as, q, re, "U") : dk \in DepKinds, pa \in Passes, ps \in ParamLists, bo \in {"inline", "where"},
-                                                         lw \in BOOLEAN, as \in BOOLEAN, q \in Quals, re \in Rets } : FnOK(f) }
+                                                         lw \in {"none", "where", "inline"}, as \in BOOLEAN, q \in Quals, re \in Rets } : FnOK(f) }
 \* modes: one fn; a module of one fn; a module of two fns with different / the same generic names; impl blocks (no lifted generics)
 Simple(f) == \A i \in DOMAIN f.params : f.params[i] \in {"owned", "ref", "reflife"}
-Second(same) == Fn("generic", "ref", <<"generic">>, "inline", FALSE, FALSE, "plain", "unit", IF same THEN "U" ELSE "V")
+Second(same) == Fn("generic", "ref", <<"generic">>, "inline", "none", FALSE, "plain", "unit", IF same THEN "U" ELSE "V")
 Inputs == { [mode |-> "fn", fns |-> <<f>>] : f \in Fns }
           \cup { [mode |-> "mod1", fns |-> <<f>>] : f \in { g \in Fns : g.deps.kind # "concrete" } }
           \* (no_deps is an option of the whole module: a second function with a dependency needs the first one to have one too)
